@@ -91,6 +91,10 @@ func TestC02bCustomBackend(t *testing.T) { customBackendHistory(t) }
 // JSON definitions (add, del in its three forms, weight): the same histories once more.
 func TestC05CustomBackendCommands(t *testing.T) { customBackendHistory(t) }
 
+// C04: the weights the custom backend's definitions carry (and those they leave out) are the
+// weights of the table: the same histories once more (fixed and effective weights are compared).
+func TestC04CustomBackendWeights(t *testing.T) { customBackendHistory(t) }
+
 // defsText writes definitions in the route-command language.
 func defsText(defs []route.RouteDef) string {
 	var b strings.Builder
